@@ -1,6 +1,6 @@
 """C15 - equivalent ways of writing a model give the same optimum."""
 from harness import core
-from checks import suite_rewrite
+from checks import suite_rewrite, suite_declorder
 
 
 def main(tier):
@@ -19,6 +19,8 @@ def main(tier):
                        'difference must be reproduced with a second solver interface',
                        'one solver per orbit (rotating HiGHS / OR-Tools / Gurobi); all sets polyhedral, so no conic solver is needed']
     suite_rewrite.run(rep, tier, props=('C15',))
+    # every order of declaring the parts (random variables, decision rule, adaptations, expression objects, sets, rows) of one ro model
+    suite_declorder.run(rep, tier, props=('C15',))
     return rep.finish()
 
 
